@@ -152,19 +152,28 @@ code and listed in `known_findings.d/C18.json`. -/
 
 /-- **C18_sem_partial** — for every oracle (every behaviour of the called functions, every pure
 interpretation of the operators), every configuration, every global environment and all arguments:
-if `p` is a function of the fragment `fragFn cfg p` — straight-line / `if` / `for` / `try`-`except`-`else`-`finally`
-code over variables,
-constants, calls with positional arguments, attribute / item loads, unary / binary operators, single
-comparisons, tuple / list / set displays and `:=`, in which for every node no operand is overtaken
-(`okT`: the later operands create no pending statement and are hoisted only if the earlier one is), unless the
-earlier operand is a variable or unselected constant that the later ones do not rebind — and no identifier of
-`p` looks like a temporary, then the transformed function returns / raises the same value and produces the
-same effect log in the same order.
+if `p` is a function of the fragment `fragFn cfg p` and no identifier of `p` looks like a temporary, then the
+transformed function returns / raises the same value and produces the same effect log in the same order.
 
-Missing for the full statement: the hazard classes of `hazards` (genuine defects, counterexamples below);
-`with` / `while` / `raise` / augmented, attribute, item and unpacking assignments / `del` / keyword, `*`, `**`
-arguments / dict displays / slices (modelled, differentially tested against CPython and the real transformer,
-not proved); operands that are pure but not atoms in front of an overtaking operand. -/
+The fragment (`Conv.AnfSpec`: `fragFn`, `fragS`, `fragE`, `okT`) is, construct by construct, the *negation of the
+finding classes*:
+* statements: `v = e`, `o.a = e`, `o[i] = e`, `(a, b) = e`, chained targets — the targets need no statement
+  (¬ `store_target_evaluated_before_value` / `later_target_operand_hoisted_before_earlier_store`);
+  `x op= e` with `e` not rebinding `x`; expression statements; `return`; `raise e`; `assert`; `del`;
+  `if`; `for` over a variable; `try`/`except`/`else`/`finally`; nested `def`; `global`/`nonlocal`;
+  `pass`/`break`/`continue`;
+* expressions: variables, constants, calls with positional arguments, attribute / item loads, unary / binary
+  operators, single comparisons, tuple / list / set displays, `:=` (not below a node carrying an expression
+  context: ¬ `walrus_target_context_clobbered_by_hoisted_copy`);
+* for every node and every operand `c` (`okT`): the later operands create no statement and are hoisted only if
+  `c` is — or what is left of `c` in place is pure (variables, constants, loads, operators, displays: no call, no
+  `:=`) and the later operands do not rebind a variable it mentions
+  (¬ `operand_effect_reordered_after_later_operand`, ¬ `name_read_reordered_after_rebinding_operand`).
+
+Not covered (modelled and tested against CPython and the real transformer, not proved): keyword / `*` / `**`
+arguments, dict displays, slices, `with`, `while`, classes, augmented assignment to attributes / items, `raise … from`,
+an effectful operand overtaken by a *pure* later operand (the classifier tolerates it, `okT` does not), lazy
+constructs (only accepted when untouched, `C18_lazy_untouched`). -/
 theorem C18_sem_partial (O : Oracle) (cfg : Config) (p q : Stmt) (genv : Env) (args : List Val)
     (hfrag : fragFn cfg p = true) (hnt : NoTempNames p) (h : anf cfg p = .ok [q]) :
     observe (runFn O genv q args) = observe (runFn O genv p args) :=
@@ -190,15 +199,29 @@ example : (match anf defaultConfig pGood with
 /-- … and (instance of the theorem with the concrete oracle) the observation is unchanged. -/
 example : sigAnf defaultConfig pGood 2 5 = sig (run pGood 2 5) := by decide +kernel
 
+/-! `pGood2` (see `Proofs/C18Examples.lean`): `global`, nested `def`, a pure operand `O.yy` overtaken by the nested
+call of a later operand, attribute / item / unpacking stores, `+=`, `assert`, `del`, `raise` — inside the fragment,
+18 top-level statements after the transformation, same observation on a returning and on a raising input. -/
+example : fragFn defaultConfig pGood2 = true := by decide +kernel
+example : (namesS pGood2).all (fun x => !isTempName x) = true := by decide +kernel
+example : hazS defaultConfig pGood2 = [] := by decide +kernel
+example : (match anf defaultConfig pGood2 with
+    | .ok [.functionDef _ _ _ b _ _ _] => b.length | _ => 0) = 18 := by decide +kernel
+example : sigAnf defaultConfig pGood2 0 1 = sig (run pGood2 0 1)
+    ∧ sig (run pGood2 0 1) = [3, 2, 1, 4, -2, -3, 5, 6, -2, 7, 12] := by decide +kernel
+example : sigAnf defaultConfig pGood2 2 5 = sig (run pGood2 2 5)
+    ∧ sig (run pGood2 2 5) = [3, 2, 1, 4, -2, -3, 5, 6, -2, 7, 8, -99] := by decide +kernel
+
 /-! ### Lean-checked counterexamples to the full statement (one per reproduced defect class)
-`sig` = tags of the `tr(k, …)` calls in order, then the returned integer; inputs `a = 0, b = 1`. -/
+`sig` = tags of the `tr(k, …)` calls in order (stores / deletes as `-arity`), then the returned integer
+(`-99` = raised); inputs `a = 0, b = 1`. -/
 
 /-- `x = a; return x + (x := 5)` — class `name_read_reordered_after_rebinding_operand`: 5 before, 10 after. -/
 example : sig (run pWalrus 0 1) = [5] ∧ sigAnf defaultConfig pWalrus 0 1 = [10]
     ∧ hazS defaultConfig pWalrus = [H_READ] := by decide +kernel
 
 /-- `O[tr(1)] = tr(2)` — class `store_target_evaluated_before_value`: calls 2,1 before and 1,2 after. -/
-example : sig (run pStore 0 1) = [2, 1, 0] ∧ sigAnf defaultConfig pStore 0 1 = [1, 2, 0]
+example : sig (run pStore 0 1) = [2, 1, -3, 0] ∧ sigAnf defaultConfig pStore 0 1 = [1, 2, -3, 0]
     ∧ hazS defaultConfig pStore = [H_STORE] := by decide +kernel
 
 /-- `tr(1, tr(2), tr(3, tr(4)))` — class `operand_effect_reordered_after_later_operand`. -/
